@@ -431,7 +431,17 @@ func (e *specEnv) indexExpr(x *ast.IndexExpr) sval {
 		}
 	case *types.Map:
 		v, _ := c.mapLoad(e.st.heap, base.v[0], t, idx.v)
-		return sval{v, t.Elem(), ""}
+		// reading a nil map yields the zero value, as in code
+		esh := shapeOf(t.Elem())
+		out := make(Val, len(v))
+		for i := range v {
+			if i < len(esh) {
+				out[i] = ite(neq(base.v[0], "0"), v[i], zeroLeaf(&esh[i]))
+			} else {
+				out[i] = v[i]
+			}
+		}
+		return sval{out, t.Elem(), ""}
 	}
 	e.errorf("unsupported index expression %s", exprString(x))
 	return sval{Val{"0"}, tInt, ""}
@@ -636,6 +646,12 @@ func (e *specEnv) callExpr(x *ast.CallExpr) sval {
 		// allocated(ref): the reference denotes an object that exists in the current state
 		a := e.eval(x.Args[0])
 		return sval{Val{lt(a.v[len(a.v)-1], e.st.alloc.term())}, tBool, ""}
+	case "before":
+		// before(a, b): object a was allocated before object b (allocation order of references);
+		// a strictly increasing sequence of references is in particular pairwise distinct
+		a := e.eval(x.Args[0])
+		b := e.eval(x.Args[1])
+		return sval{Val{lt(a.v[len(a.v)-1], b.v[len(b.v)-1])}, tBool, ""}
 	case "same":
 		// same(a, b): full (extensional) equality of all leaves
 		a := e.eval(x.Args[0])
